@@ -291,6 +291,8 @@ namespace ip {
 			if (p.buffer.empty()) break;
 		}
 
+		// the rest of a truncated datagram is discarded with it
+		m_queue_size -= int(p.buffer.size());
 		m_incoming_queue.erase(m_incoming_queue.begin());
 		return read;
 	}
